@@ -45,7 +45,8 @@ MODES = {
                  hv_args=["--tool", "--mem", "heapguard"], classify=classify_miri),
     # Miri on the inline backends: borrow tracking off (DESIGN.md 1.8), bounds/UAF/init/alignment checks stay on
     "miri-stack": dict(build=MIRI_BUILD, build_tail=["--", "configs"], runner=MIRI_RUNNER, target="miri",
-                       env={"RUSTFLAGS": "--cfg any_vec_verif", "MIRIFLAGS": MIRI_BASE + " -Zmiri-disable-stacked-borrows -Zmiri-symbolic-alignment-check"},
+                       # leaks are ignored: a fixed-capacity vector legitimately leaks its tail when an operation beyond its capacity panics
+                       env={"RUSTFLAGS": "--cfg any_vec_verif", "MIRIFLAGS": MIRI_BASE + " -Zmiri-disable-stacked-borrows -Zmiri-symbolic-alignment-check -Zmiri-ignore-leaks"},
                        hv_args=["--tool", "--mem", "stack"], classify=classify_miri),
     # Miri forced onto the production byte loop of copy_bytes (pointer-free elements only)
     "miri-realcopy": dict(build=MIRI_BUILD, build_tail=["--", "configs"], runner=MIRI_RUNNER, target="miri-realcopy",
@@ -64,6 +65,9 @@ MODES = {
                      hv_args=["--tool", "--sample"], classify=classify_valgrind, setup=False),
     # harness and any_vec built without default features (C19)
     "nodefault": dict(build=CARGO + ["--profile", "relflags", "--no-default-features"], bin="relflags/hv"),
+    "valgrind-noleak": dict(build=CARGO + ["--profile", "relflags"], bin="relflags/hv", target="rel",
+                     runner=["valgrind", "--quiet", "--error-exitcode=97", "--leak-check=no", "{bin}"],
+                     hv_args=["--tool", "--sample"], classify=classify_valgrind, setup=False),
     # leaks are permitted (C06/C07)
     "miri-noleak": dict(build=MIRI_BUILD, build_tail=["--", "configs"], runner=MIRI_RUNNER, target="miri",
                         env={"RUSTFLAGS": "--cfg any_vec_verif", "MIRIFLAGS": MIRI_BASE + " -Zmiri-ignore-leaks"},
@@ -112,11 +116,12 @@ CHECKS = {
         rule="identity registry fed by the element types' own make/Clone/Drop, balanced against what is reachable through the vectors after every step and after "
              "everything is dropped, over the element / range / clone / lazy families and mixed random histories on three vectors exchanging elements; "
              "by-value multiset accounting for types without drop glue, by-count for zero-sized; non-trivial = case moved, removed, cloned or destroyed an element",
-        runs=[dict(mode="rel"), dict(mode="dbg", args=["--sub", "light"]), dict(mode="asan", args=["--sub", "light"], tiers=("quick",)),
-              dict(mode="opt", tiers=("thorough",)), dict(mode="asan", tiers=("thorough",)), dict(mode="miri", args=["--quota", "25"], tiers=("thorough",), timeout=7200),
-              dict(mode="valgrind", args=["--quota", "60"], tiers=("thorough",), timeout=7200)],
+        runs=[dict(mode="rel"), dict(mode="dbg", args=["--sub", "light"]), dict(mode="asan-noleak", args=["--sub", "light"], tiers=("quick",)),
+              dict(mode="opt", tiers=("thorough",)), dict(mode="asan-noleak", tiers=("thorough",)), dict(mode="miri-noleak", args=["--quota", "25"], tiers=("thorough",), timeout=7200),
+              dict(mode="valgrind-noleak", args=["--quota", "60"], tiers=("thorough",), timeout=7200)],
         floors={"any": {"evaluations": 20000, "drop_events": 10000, "clone_events": 1000}},
-        assumptions=BEHAVIOUR_ASSUMPTIONS,
+        tool_kinds=["tool-memory", "crash"],
+        assumptions=BEHAVIOUR_ASSUMPTIONS + ["tool modes ignore leaks: the workloads contain operations that legitimately leak (fixed-capacity overflow panics); leaks are decided by the identity registry, which knows which ids may leak"],
     ),
     "C08": dict(
         level="exploration",
